@@ -230,7 +230,7 @@ func CheckSelection(pool []*blockchain.Transaction, block []*blockchain.Transact
 			y := bySender[o][ptr[o]]
 			if prio(y) > prio(x) {
 				// passed over: legitimate only if it failed verification or execution, in which case its sender is out
-				if verifies(y, ptr[o]) {
+				if verifies(y, ptr[o]) && total+y.Size() <= limit {
 					return "better-candidate-passed-over", fmt.Sprintf("transaction %d of the block (priority %d) was taken although sender %x's next transaction (nonce %d, priority %d, %d bytes) has a higher fee priority, verifies against the account nonce and fits", i, prio(x), []byte(o)[:3], y.Nonce, prio(y), y.Size())
 				}
 				dead[o] = true
@@ -242,22 +242,28 @@ func CheckSelection(pool []*blockchain.Transaction, block []*blockchain.Transact
 			return "payload-over-limit", fmt.Sprintf("the payload is %d bytes after transaction %d, the limit is %d", total, i, limit)
 		}
 	}
-	// maximality: the best remaining candidate must not fit
-	var best *blockchain.Transaction
-	for _, o := range senders {
-		if dead[o] || ptr[o] >= len(bySender[o]) {
+	// maximality: going on in priority order, the block may end at the first candidate that does not fit; candidates that
+	// do not verify drop their sender; a candidate that fits and verifies should have been taken
+	for {
+		var best *blockchain.Transaction
+		bo := ""
+		for _, o := range senders {
+			if dead[o] || ptr[o] >= len(bySender[o]) {
+				continue
+			}
+			y := bySender[o][ptr[o]]
+			if best == nil || prio(y) > prio(best) {
+				best, bo = y, o
+			}
+		}
+		if best == nil || total+best.Size() > limit {
+			break
+		}
+		if !verifies(best, ptr[bo]) {
+			dead[bo] = true
 			continue
 		}
-		y := bySender[o][ptr[o]]
-		if !verifies(y, ptr[o]) {
-			continue
-		}
-		if best == nil || prio(y) > prio(best) {
-			best = y
-		}
-	}
-	if best != nil && total+best.Size() <= limit {
-		return "stopped-early", fmt.Sprintf("the block ends with %d of %d payload bytes used although the best remaining candidate (sender %x nonce %d, %d bytes) fits", total, limit, []byte(best.SenderAddress())[:3], best.Nonce, best.Size())
+		return "stopped-early", fmt.Sprintf("the block ends with %d of %d payload bytes used although the best remaining candidate (sender %x nonce %d, %d bytes) verifies and fits", total, limit, []byte(best.SenderAddress())[:3], best.Nonce, best.Size())
 	}
 	return "", ""
 }
